@@ -109,28 +109,45 @@ func genStop(c *ctx) {
 		cfg.hookTunnel = true // ... whose writes are stop boundaries like the in-band ones
 		tops := stopTree(rng, root, cfg.directory)
 		counts := baselineCounts(cfg, tops, root)
-		per := c.pick(10, 80)
+		per := c.pick(15, 90)
 		for k := 0; k < per; k++ {
 			s := &sc{cfg: cfg, tops: tops, root: root}
-			s.who = []string{"client", "server", "client-prompt", "client-keys", "client-after-continue"}[c.rng.Intn(5)]
+			// stratified: every way of stopping occurs in every base
+			s.who = []string{"client", "server", "client-prompt", "client-keys", "client-after-continue"}[k%5]
 			s.del = s.who != "server" && c.rng.Intn(2) == 0
 			if s.who == "client-keys" {
-				// the stop question driven by arbitrary navigation keys: Ctrl-C opens it, 0-4 moves,
+				// the stop question driven by arbitrary navigation keys: Ctrl-C opens it, some moves,
 				// then Enter (the entry under the cursor) / Ctrl-C (stop and keep, from anywhere) /
-				// q (continue, from anywhere); entries: 0 keep, 1 delete, 2 continue; no wrap-around
+				// q (continue, from anywhere); entries: 0 keep, 1 delete, 2 continue; no wrap-around.
+				// Every (entry under the cursor, final key) pair occurs: the moves first wander, then
+				// go up to the top and down to the target entry
+				combo := (k/5 + 2*b) % 9
+				target := combo % 3
+				nexts := [][]byte{{'\t'}, {'j'}, {0x0e}, {0x1b, '[', 'B'}}
+				prevs := [][]byte{{'k'}, {0x10}, {0x1b, '[', 'A'}, {0x1b, '[', 'Z'}}
 				cur := 0
-				for n := c.rng.Intn(5); n > 0; n-- {
-					k := [][]byte{{'\t'}, {'j'}, {0x0e}, {0x1b, '[', 'B'}, {'k'}, {0x10}, {0x1b, '[', 'A'}, {0x1b, '[', 'Z'}}[c.rng.Intn(8)]
+				press := func(k []byte, next bool) {
 					s.keys = append(s.keys, k)
-					if k[len(k)-1] == '\t' || k[len(k)-1] == 'j' || k[len(k)-1] == 0x0e || k[len(k)-1] == 'B' {
-						if cur < 2 {
-							cur++
-						}
-					} else if cur > 0 {
+					if next && cur < 2 {
+						cur++
+					} else if !next && cur > 0 {
 						cur--
 					}
 				}
-				switch c.rng.Intn(3) {
+				for n := c.rng.Intn(3); n > 0; n-- {
+					if c.rng.Intn(2) == 0 {
+						press(nexts[c.rng.Intn(4)], true)
+					} else {
+						press(prevs[c.rng.Intn(4)], false)
+					}
+				}
+				for cur > target {
+					press(prevs[c.rng.Intn(4)], false)
+				}
+				for cur < target {
+					press(nexts[c.rng.Intn(4)], true)
+				}
+				switch combo / 3 {
 				case 0:
 					s.keys = append(s.keys, []byte{'\r'})
 				case 1:
@@ -146,6 +163,14 @@ func genStop(c *ctx) {
 				s.idx = c.rng.Intn(counts[s.dir] + 1)
 			}
 			s.preexist = c.rng.Intn(2) == 0
+			if s.who == "client-after-continue" {
+				// early in the data direction, so that much of the transfer is left after the continue
+				s.dir = dirS2C
+				if cfg.upload {
+					s.dir = dirC2S
+				}
+				s.idx = counts[s.dir]/6 + c.rng.Intn(counts[s.dir]/6+1)
+			}
 			if pr := os.Getenv("VERIF_STOP_PROBE"); pr != "" {
 				// investigation aid: VERIF_STOP_PROBE="who dir idx" pins the stop of every case
 				fmt.Sscanf(pr, "%s %d %d", &s.who, &s.dir, &s.idx)
@@ -186,7 +211,7 @@ func genStop(c *ctx) {
 		cfg.onStart = func(r *e2eRun) { runMu.Lock(); run = r; runMu.Unlock() }
 		var stopAt time.Time
 		var keysMu sync.Mutex
-		var throttle atomic.Bool
+		var throttle atomic.Int64 // milliseconds every further write of the link takes
 		inner := atWriteSync(s.dir, s.idx, func() {
 			for k := 0; k < 2000; k++ {
 				runMu.Lock()
@@ -209,6 +234,9 @@ func genStop(c *ctx) {
 							r.cliIn.Write([]byte{'\r'})
 						}()
 					case "client-keys":
+						// a slow link from here on: the legacy protocols go on sending while the question
+						// is open, the transfer must not be over before the last key is typed
+						throttle.Store(60)
 						stopAt = time.Time{}
 						go func() {
 							r.cliIn.Write([]byte{0x03})
@@ -227,7 +255,7 @@ func genStop(c *ctx) {
 					case "client-after-continue":
 						// Ctrl-C, a long think, continue - and shortly afterwards the real stop; from the
 						// first Ctrl-C on the link is slow, so that the second one lands inside the transfer
-						throttle.Store(true)
+						throttle.Store(25)
 						stopAt = time.Time{}
 						go func() {
 							r.cliIn.Write([]byte{0x03})
@@ -255,8 +283,8 @@ func genStop(c *ctx) {
 		})
 		cfg.hook = func(d, i int, b []byte) e2eAction {
 			a := inner(d, i, b)
-			if throttle.Load() {
-				time.Sleep(25 * time.Millisecond)
+			if ms := throttle.Load(); ms > 0 {
+				time.Sleep(time.Duration(ms) * time.Millisecond)
 			}
 			return a
 		}
@@ -388,6 +416,9 @@ func genStop(c *ctx) {
 	})
 	for _, s := range cases {
 		c.note(true, s.desc+" => "+s.outcome+fmt.Sprintf(" (%.2fs)", s.dur.Seconds()))
+		if os.Getenv("VERIF_DEBUG") != "" {
+			fmt.Fprintf(os.Stderr, "%s => %s (%.2fs)\n", s.desc, s.outcome, s.dur.Seconds())
+		}
 		c.count("outcome:" + s.outcome)
 		c.count("who:" + s.who)
 		if len(s.bad) > 0 {
